@@ -151,6 +151,7 @@ impl Consist {
         };
         let _ = consist.n_res_equipped();
         consist.set_save_interval(save_interval);
+        consist.set_pwr_dyn_brake_max();
         consist
     }
 
@@ -423,6 +424,7 @@ impl Default for Consist {
         };
         // ensure propagation to nested components
         consist.set_save_interval(Some(1));
+        consist.set_pwr_dyn_brake_max();
         let _mass = consist.mass().unwrap();
         consist
     }
